@@ -23,10 +23,22 @@ def run(rep, tier):
                                 extra=("alloc",), nontrivial=nontrivial, oracle_props={"C02"},
                                 sample_fmt=sample)
     rep.coverage.update(agg)
+    # ---- bounded-exhaustive validation of the model against the code (support for the tie, not a proof):
+    # EVERY operation sequence of length k over a small alphabet on an 8-word map
+    from .. import mm
+    k = 2 if tier == "quick" else 3
+    ex = runner.correspondence(rep, prop=PROP, mod_name="harness.mm", driver_kind="mmap", ncases=mm.exh_count(k),
+                               extra=("exh", k), oracle_props={"C02"})
+    rep.coverage["bounded_exhaustive"] = {"sequence_length": k, "alphabet": len(mm.exh_alphabet(k)), "cases": ex["evaluations"],
+                                          "correspondence_diffs": ex["correspondence_diffs"], "oracle_failures": ex["oracle_failures"],
+                                          "distribution": ex["distribution"]}
+    rep.coverage["evaluations"] = agg["evaluations"] + ex["evaluations"]
+    rep.coverage["traces_validated_against_impl"] = agg["traces_validated_against_impl"] + ex["traces_validated_against_impl"]
     rep.coverage["rule"] = ("generated API histories on real MemoryMap objects (add_resource/add_window/align_to/"
                             "freeze/hand-off, valid and invalid arguments, nested children); after every call the "
                             "answer, resources(), windows() and a cursor probe are compared with the Lean model and "
                             "the property's clauses are evaluated on the real answers; non-trivial = history with "
                             ">=1 refusal and >=1 insertion that is not at the end of the range list; distinct = "
-                            "distinct protocol transcripts")
+                            "distinct protocol transcripts; plus ALL operation sequences of length 2 (quick) / 3 (thorough) over a "
+                            "small alphabet on an 8-word map (bounded_exhaustive)")
     rep.assumptions += ["bool name parts (True == 1) and maps containing themselves are outside the generator"]
